@@ -3,9 +3,10 @@
 From Coq Require Import List NArith ZArith.
 From Coq.Strings Require Import Byte.
 From Coq Require Import Extraction ExtrOcamlBasic.
-From GI Require Import Lib.Bytes Gen.CacheTrimConsts CacheTrim.CacheTrim.
+From GI Require Import Lib.Bytes Gen.CacheTrimConsts CacheTrim.CacheTrim CacheTrim.CacheTrimConc.
 Extraction Language OCaml.
 Extraction "extracted/cachetrim/model.ml" Byte.of_N Byte.to_N Z.add Z.mul Z.opp Z.ltb
-  trim used lookup store step run decimal parse_int trim_due trim_space is_entry_name
+  trim trim_err trim_prefix used lookup store step run decimal parse_int trim_due trim_space is_entry_name
+  c13_holds_on holds_from stated_limit c_run c_init trim_cutoff
   mtime_interval trim_interval trim_limit trim_file_name index_suffix data_suffix
   open_subdir_count.
